@@ -32,9 +32,19 @@ class C05(Prop):
     def generate(self, tier, rng):
         N = 1200 if tier == "quick" else 20000
         for k in range(N):
-            kind = rng.choice(["hes", "hes", "hqs", "hqs", "logloss", "squared_error", "poisson", "gamma", "pinball"])
+            kind = rng.choice(["hes", "hes", "hqs", "hqs", "logloss", "squared_error", "poisson", "gamma", "pinball", "elementary", "elementary"])
             h = rng.choice(sc.HES_DEGREES if kind == "hes" else sc.HQS_DEGREES)
             lv = rng.choice(sc.LEVELS)
+            if kind == "elementary":
+                # ElementaryScore is a scoring function of the library too; eta on a data value in most cases
+                n = rng.randint(1, 9)
+                ys = [Fraction(rng.randint(-4, 6), rng.choice([1, 2])) for _ in range(n)]
+                f = rng.choice(["mean", "median", "expectile", "quantile"])
+                ws = None if rng.random() < 0.4 else [Fraction(rng.randint(1, 4)) for _ in range(n)]
+                eta = rng.choice(ys) if rng.random() < 0.7 else Fraction(rng.randint(-9, 13), 2)
+                yield {"stream": "sample", "kind": "elementary", "elem_f": f, "eta": str(eta), "h": 0.0, "level": rng.choice([0.5, 0.25, 0.75, 0.125]),
+                       "y": [str(v) for v in ys], "w": None if ws is None else [str(v) for v in ws]}
+                continue
             fam, hh, lve = sc.effective(kind, h, lv)
             n = rng.randint(1, 9)
             if fam == "logloss":
@@ -54,7 +64,12 @@ class C05(Prop):
     def grid_and_opt(self, case):
         ys = [Fraction(v) for v in case["y"]]
         ws = [Fraction(1)] * len(ys) if case.get("w") is None else [Fraction(v) for v in case["w"]]
-        fam, h, lv = sc.effective(case["kind"], float(case["h"]), case["level"])
+        if case["kind"] == "elementary":
+            f = case["elem_f"]
+            fam, h, lv = {"mean": ("hes", 2.0, 0.5), "expectile": ("hes", 2.0, case["level"]), "median": ("hqs", 1.0, 0.5),
+                          "quantile": ("hqs", 1.0, case["level"])}[f]
+        else:
+            fam, h, lv = sc.effective(case["kind"], float(case["h"]), case["level"])
         a = Fraction(lv)
         srt = sorted(set(ys))
         pts = set(srt) | {(u + v) / 2 for u, v in zip(srt, srt[1:])} | {srt[0] - 1, srt[-1] + 1, srt[0] - Fraction(1, 4), srt[-1] + Fraction(1, 4)}
@@ -66,6 +81,10 @@ class C05(Prop):
         else:
             opt = [ic.wmean(ys, ws)]
         pts |= set(opt)
+        if case["kind"] == "elementary":
+            e = Fraction(case["eta"])
+            pts |= {e, e - Fraction(1, 2), e + Fraction(1, 2)}
+            return [float(p) for p in sorted(pts)], [float(o) for o in opt]
         ymin = float(min(ys))
         grid = []
         for p in sorted(pts):
@@ -79,6 +98,14 @@ class C05(Prop):
         ws = None if case.get("w") is None else [float(Fraction(v)) for v in case["w"]]
         grid, opt = self.grid_and_opt(case)
         out = {"grid": grid, "opt": opt, "m": []}
+        if case["kind"] == "elementary":
+            import numpy as np
+            from model_diagnostics.scoring import ElementaryScore
+
+            sf = ElementaryScore(eta=float(Fraction(case["eta"])), functional=case["elem_f"], level=case["level"])
+            for g in grid:
+                out["m"].append(float(sf(np.array(ys), np.full(len(ys), g), None if ws is None else np.array(ws))))
+            return out
         for g in grid:
             r = sc.call_score(case["kind"], case["h"], case["level"], ys, [g] * len(ys), ws)
             if "err" in r or "mean_err" in r:
@@ -90,6 +117,12 @@ class C05(Prop):
         ys = [float(Fraction(v)) for v in case["y"]]
         ws = None if case.get("w") is None else [float(Fraction(v)) for v in case["w"]]
         grid, _ = self.grid_and_opt(case)
+        if case["kind"] == "elementary":
+            from .core import enc, enc_list
+
+            return {"op": "murphy", "f": case["elem_f"], "level": enc(Fraction(case["level"])), "etas": [enc(Fraction(case["eta"]))],
+                    "y": enc_list(Fraction(v) for v in case["y"]), "cols": [enc_list([Fraction(g)] * len(ys)) for g in grid],
+                    "w": None if case.get("w") is None else enc_list(Fraction(v) for v in case["w"])}
         return [sc.score_request(case["kind"], float(case["h"]), case["level"], ys, [g] * len(ys), ws) for g in grid]
 
     def compare(self, case, io, mo):
@@ -99,6 +132,11 @@ class C05(Prop):
             return f"admissible constant {io.get('at')} rejected with {io['err']}"
         ys = [float(Fraction(v)) for v in case["y"]]
         ms = []
+        if case["kind"] == "elementary":
+            if "lines" not in mo:
+                return f"model rejects the call: {mo}"
+            ms = [float(Fraction(l["y"][0])) for l in mo["lines"]]
+            mo = []
         for g, m in zip(io["grid"], mo):
             if "mean" not in m:
                 return f"model rejects constant {g}: {m}"
@@ -107,7 +145,7 @@ class C05(Prop):
         for i, g in enumerate(io["grid"]):
             a = io["m"][i] - io["m"][ref]
             b = ms[i] - ms[ref]
-            s = max(sc.scale(case["kind"], float(case["h"]), case["level"], y, c) for y in ys for c in (g, io["grid"][ref]))
+            s = (max(abs(v) for v in ys) + abs(g) + 10.0) if case["kind"] == "elementary" else max(sc.scale(case["kind"], float(case["h"]), case["level"], y, c) for y in ys for c in (g, io["grid"][ref]))
             if not (abs(a - b) <= 1e-10 * s + 1e-9 * min(abs(a), abs(b))):
                 return f"average score at constant {g} minus the one at {io['grid'][ref]}: {a!r}, model {b!r}"
         return None
@@ -121,10 +159,10 @@ class C05(Prop):
             if o not in vals:
                 continue
             for g, v in vals.items():
-                s = max(sc.scale(case["kind"], float(case["h"]), case["level"], y, c) for y in ys for c in (g, o))
+                s = 20.0 if case["kind"] == "elementary" else max(sc.scale(case["kind"], float(case["h"]), case["level"], y, c) for y in ys for c in (g, o))
                 if vals[o] > v + 1e-10 * s:
                     return (f"average score at the sample functional {o} is {vals[o]!r} but the constant {g} scores {v!r} "
-                            f"({case['kind']} degree={case['h']} level={case['level']})")
+                            f"({case['kind']} {case.get('elem_f', '')} eta={case.get('eta')} degree={case['h']} level={case['level']})")
         return None
 
     def nontrivial(self, case, io):
